@@ -17,7 +17,7 @@ theorem inv_pruneOne {s : St} (st : Status) (hst : st.unresolved = false) (hi : 
   · rename_i it hfind
     split
     · rename_i hs
-      obtain ⟨hmem, huri⟩ := findItem_some hfind
+      obtain ⟨hmem, huri⟩ := findItem_some8 hfind
       have key : ∀ y ∈ s.items, y.uri = u → y.status.unresolved = false := by
         intro y hy e
         have : y = it := nodup_unique hi.nodup hy hmem (e.trans huri.symm)
@@ -43,7 +43,7 @@ theorem inv_toChallengingOne {s : St} (hi : Inv s) (u : String) : Inv (toChallen
   unfold toChallengingOne
   split
   · rename_i it hfind
-    obtain ⟨hmem, huri⟩ := findItem_some hfind
+    obtain ⟨hmem, huri⟩ := findItem_some8 hfind
     split
     · rename_i hs
       simp only []
@@ -109,7 +109,7 @@ theorem inv_toVerifiedOne {s : St} (hi : Inv s) (u : String) : Inv (toVerifiedOn
   unfold toVerifiedOne
   split
   · rename_i it hfind
-    obtain ⟨hmem, huri⟩ := findItem_some hfind
+    obtain ⟨hmem, huri⟩ := findItem_some8 hfind
     subst huri
     split
     · rename_i hs
